@@ -2,4 +2,3 @@
 
 package verifsim
 
-func (s *Sim) checkPerio(ctx *StepCtx)       {}
